@@ -24,12 +24,13 @@ use crate::{
     GDResult,
 };
 
-use bzip2_rs::decoder::Decoder;
+use bzip2_rs::DecoderReader;
 
 use crate::buffer::Utf8Decoder;
 use crate::protocols::valve::Packet;
 use byteorder::LittleEndian;
 use std::collections::HashMap;
+use std::io::Read;
 use std::net::SocketAddr;
 
 #[derive(Debug)]
@@ -64,8 +65,9 @@ impl SplitPacket {
                     true => 1248,
                 };
 
+                // the decompressed size and the checksum are only present in the first packet
                 let is_compressed = ((id >> 31) & 1u32) == 1u32;
-                let decompressed = match is_compressed {
+                let decompressed = match is_compressed && number == 0 {
                     false => None,
                     true => Some((buffer.read()?, buffer.read()?)),
                 };
@@ -87,17 +89,14 @@ impl SplitPacket {
 
     fn get_payload(&self) -> GDResult<Vec<u8>> {
         if let Some(decompressed) = self.decompressed {
-            let mut decoder = Decoder::new();
-            decoder
-                .write(&self.payload)
-                .map_err(|e| Decompress.context(e))?;
-
             let decompressed_size = decompressed.0 as usize;
 
-            let mut decompressed_payload = vec![0; decompressed_size];
-
-            decoder
-                .read(&mut decompressed_payload)
+            // Decompress the whole stream (reading one byte past the declared size to detect
+            // oversized data without buffering it)
+            let mut decompressed_payload = Vec::new();
+            DecoderReader::new(self.payload.as_slice())
+                .take(decompressed_size as u64 + 1)
+                .read_to_end(&mut decompressed_payload)
                 .map_err(|e| Decompress.context(e))?;
 
             if decompressed_payload.len() != decompressed_size
